@@ -254,7 +254,7 @@ def explore(ctx, factor, bs):
     for case in L.deep_repeat_family():
         one_case(ctx, case, tag="deeprep:")
         maybe_xlsx(ctx, case, 0.25)
-    for i in range(ctx.pick(500, 12000) * factor):
+    for i in range(ctx.pick(350, 12000) * factor):
         case = L.nest_repeats(rng, L.render(L.random_form(rng, big=not ctx.quick())))
         one_case(ctx, case, tag="rep:")
         ctx.count("rep:depth:%d" % max([p.count("/") - 2 for _, p, _, _ in L.survey_layout(case)] or [0]))
